@@ -74,6 +74,12 @@ def run(ctx):
         dfl = [s for s in st if isinstance(s.value, ast.Constant)]
         okd = bool(dfl) and dfl[0].value.value == defaults[nm] and any(
             pol and unparse(t) == 'self.%s is None' % nm for t, pol in atomic_facts(dfl[0]))
+        if not (ok and okd):
+            # per path (E7): at every normal exit of __init__ the field holds either the popped option (on a path where
+            # it is not None) or the default constant (on a path where the popped option is None)
+            v2 = _option_field_paths(winit, nm, defaults[nm])
+            if v2 is not None:
+                ok, okd = v2, v2
         ctx.decide('R20b', ok and okd, w, pops[0] if pops else winit,
                    'walker takes %s from the like-named option, default %r' % (nm, defaults[nm]),
                    'LatexWalker.__init__ does not take %s from the option of the same name with '
@@ -792,3 +798,32 @@ def _handwritten_search(f):
                     'can never be chosen -- every position on the last line is reported on the line before it, with a column '
                     'past that line\'s end' % (name, unparse(v), other[0] if other else '?', mid, *sorted(ops)))
     return None
+
+
+def _option_field_paths(init, nm, default):
+    """True/False when decidable per path: self.<nm> at every exit of `init` is the option popped under the name <nm>
+    (when that is not None) or the constant `default` (when it is None); None when the paths cannot be walked"""
+    try:
+        cases = symex.Walker(want_exits=True, track_attrs=('self.' + nm,)).run_block(init.body)
+    except symex.TooManyPaths:
+        return None
+    seen = False
+    for cs in cases:
+        if cs.kind not in ('end', 'return'):
+            continue
+        v = cs.env.get('self.' + nm)
+        if v is None:
+            return False
+        seen = True
+        atoms = {(unparse(symex.expand(a_, cs.env)), ap_) for t_, p_ in cs.conds for a_, ap_ in symex._atoms(t_, p_)}
+        full = symex.expand(v, cs.env)
+        popped = "kwargs.pop('%s', None)" % nm
+        if isinstance(full, ast.Constant):
+            if full.value != default or not ((popped + ' is None', True) in atoms or (popped + ' is not None', False) in atoms):
+                return False
+        elif unparse(full) == popped:
+            if not ((popped + ' is None', False) in atoms or (popped + ' is not None', True) in atoms):
+                return False
+        else:
+            return False
+    return seen
